@@ -773,6 +773,10 @@ def _run_random(desc, ctx):
     done = 0
     try:
         S.build(rng)
+        if desc["seed"] % 3 == 2:
+            # history: the very first thing asked of the new attribute is an array export (no entry was read yet)
+            ctx.cls("history:array_export_before_any_read")
+            S.check_as_array(with_size=True)
         S.check_answers("answers", "after_create")
         S.check_align("create")
         if desc["seed"] % 8 == 0:
